@@ -11,6 +11,15 @@ from collections import OrderedDict
 
 class NetlistSimplifyMixin:
 
+    def _combine_signs(self, name, subset, series):
+        """Return dict with the orientation (+1 or -1) of each component
+        in subset relative to the component name."""
+
+        if series:
+            signs = self.cg.series_signs(name)
+            return dict((name1, signs.get(name1, 1)) for name1 in subset)
+        return self.cg.parallel_signs(name, subset)
+
     def _do_simplify_combine(self, string, subset, net,
                              explain=False, add=False, series=False):
 
@@ -18,11 +27,26 @@ class NetlistSimplifyMixin:
             print(string % subset)
 
         subset_list = list(subset)
+        name = subset_list[0]
+        elt = self.elements[name]
+        signs = self._combine_signs(name, subset_list, series)
+
+        if elt.type in ('V', 'I'):
+            # Only combine sources specified by a single value and of
+            # the same kind (dc, step, etc.).
+            for name1 in subset_list:
+                elt1 = self.elements[name1]
+                if elt1.keyword[1] != elt.keyword[1] or len(elt1.args) != 1:
+                    return False
 
         if add:
             total = expr(0)
-            for name in subset_list:
-                total += expr(self.elements[name].cpt.args[0])
+            for name1 in subset_list:
+                value = expr(self.elements[name1].cpt.args[0])
+                if elt.type in ('V', 'I'):
+                    # The polarity matters for sources.
+                    value = value * signs[name1]
+                total += value
         else:
             total = expr(0)
             for name in subset_list:
@@ -34,16 +58,25 @@ class NetlistSimplifyMixin:
 
         ic = None
         name = subset_list[0]
-        elt = self.elements[name]
-        if elt.cpt.has_ic:
-            ic = expr(0)
-            for name1 in subset_list:
-                ic += expr(self.elements[name1].cpt.args[1])
+        if elt.type in ('L', 'C') and add:
+            # Series inductors share the same current and parallel
+            # capacitors share the same voltage (see _check_ic).
+            if elt.cpt.has_ic:
+                ic = expr(elt.cpt.args[1])
+        elif elt.type in ('L', 'C'):
+            # The initial voltages of series capacitors add as do the
+            # initial currents of parallel inductors.
+            ics = [expr(self.elements[name1].cpt.args[1]) * signs[name1]
+                   for name1 in subset_list if self.elements[name1].cpt.has_ic]
+            if ics != []:
+                ic = expr(0)
+                for ic1 in ics:
+                    ic += ic1
 
-            if explain:
-                print('%s combined IC = %s' % (subset, ic))
+        if ic is not None and explain:
+            print('%s combined IC = %s' % (subset, ic))
 
-        newname = self.namer(name[0] + 't', self.elements)
+        newname = self.namer(elt.type + 't', self.elements)
         net1 = elt._new_value(total, ic)
         parts = net1.split(' ', 1)
         net1 = newname + ' ' + parts[1]
@@ -66,11 +99,12 @@ class NetlistSimplifyMixin:
 
         return True
 
-    def _check_ic(self, subset):
+    def _check_ic(self, subset, series):
 
         subset = subset.copy()
         name = subset.pop()
         has_ic = self.elements[name].has_ic
+        signs = self._combine_signs(name, subset, series)
 
         okay = True
         for name1 in subset:
@@ -78,11 +112,11 @@ class NetlistSimplifyMixin:
                 warn('Incompatible initial conditions for %s and %s' %
                      (name, name1))
                 okay = False
-        if not has_ic:
+        if not has_ic or not okay:
             return okay
-        ic = self.elements[name].cpt.args[1]
+        ic = expr(self.elements[name].cpt.args[1])
         for name1 in subset:
-            if self.elements[name1].cpt.args[1] != ic:
+            if expr(self.elements[name1].cpt.args[1]) * signs[name1] != ic:
                 warn('Incompatible initial conditions for %s and %s' %
                      (name, name1))
                 okay = False
@@ -101,15 +135,14 @@ class NetlistSimplifyMixin:
                 if k == 'I':
                     warn('Netlist has current sources in series: %s' % subset)
                 elif k in ('R', 'NR', 'L', 'V', 'Z'):
-                    if k == 'L' and not self._check_ic(subset):
+                    if k == 'L' and not self._check_ic(subset, True):
                         continue
                     changed |= self._do_simplify_combine('Can add in series: %s',
                                                          subset, net, explain, True, True)
                 elif k in ('C', 'Y'):
                     changed |= self._do_simplify_combine('Can combine in series: %s',
                                                          subset, net, explain, False, True)
-                else:
-                    raise RuntimeError('Internal error')
+                # Other components (E, F, G, H, etc.) are not combined.
 
         return net, changed
 
@@ -128,12 +161,11 @@ class NetlistSimplifyMixin:
                     changed |= self._do_simplify_combine('Can combine in parallel: %s',
                                                          subset, net, explain, False, False)
                 elif k in ('C', 'Y', 'I'):
-                    if k == 'C' and not self._check_ic(subset):
+                    if k == 'C' and not self._check_ic(subset, False):
                         continue
                     changed |= self._do_simplify_combine('Can add in parallel: %s',
                                                          subset, net, explain, True, False)
-                else:
-                    raise RuntimeError('Internal error')
+                # Other components (E, F, G, H, etc.) are not combined.
 
         # TODO, remove dangling wires connected to the removed components.
 
